@@ -652,6 +652,20 @@ func (s *UtxoStore) VerifWF() bool { return s != nil && s.bucketMeta != nil }
 //@   requires s != nil && s.bucketMeta != nil && tx != nil && rec != nil
 //@   requires[C09] !bhasI(B(tx, s.bucketMeta.nsUnmined), rec.Hash)
 //@   modifies *
+// ---- C10 / C18 (import path): a mined transaction that is recorded for a wallet being imported has its inputs applied
+// (credits spent, debits written, history entries flipped to withdrawn) exactly once on every successful call, also
+// when its record already exists because another wallet saw the transaction first
+//@ func (*TxStore).insertMinedTxForImporting
+//@   props C10 C18
+//@   nopanic off
+//@   modifies *
+//@   only updateMinedBalance FetchBucket
+//@   dbonly existsTxRecord existsBlockRecord putBlockRecord readBlockHashFromValue appendRawBlockRecord putRawBlockRecord putTxRecord existsRawUnmined
+//@   requires s != nil && s.bucketMeta != nil && tx != nil && rec != nil && block != nil
+// stated where the final double check begins (every successful return lies behind that statement); the calls of the
+// double check are unknown code to the generator and would blur the ghost tally in a postcondition
+//@   at "nsUnmined := tx.FetchBucket(s.bucketMeta.nsUnmined)" assert[C10] gget("tallyBalApplied", rec) == old(gget("tallyBalApplied", rec)) + 1
+
 //@ func (*TxStore).insertMinedTx
 //@   props C09
 //@   nopanic off
@@ -775,8 +789,9 @@ func (s *UtxoStore) VerifWF() bool { return s != nil && s.bucketMeta != nil }
 //@   ensures err == nil ==> bytesEq(blkHash, 0, v, 0, 32)
 
 // updateBlockRecord rewrites the record of a height with a given non-empty list of transaction hashes
+// (C08: removal rewrites the record of a height shared with other wallets through it -- their transactions stay listed)
 //@ func updateBlockRecord
-//@   props C01 C18 C19
+//@   props C01 C08 C18 C19
 //@   requires ns != nil && block != nil && len(txHashes) >= 1 && len(txHashes) < 4294967296
 // appendRawBlockRecord cannot fail on a value that already has its 44-byte header: one defensive return
 //@   dead returns 1
@@ -927,6 +942,8 @@ func (s *UtxoStore) VerifWF() bool { return s != nil && s.bucketMeta != nil }
 //@   only putDebit FetchBucket spendCredit existsUnspent
 // reading back the key of a credit found through the unspent index cannot fail (76 bytes): one defensive return
 //@   dead returns 1
+// ghost tally (assumed, not proved): a successful call applies the record's inputs to the wallet's coins once more
+//@   assume result == nil ==> gget("tallyBalApplied", rec) == old(gget("tallyBalApplied", rec)) + 1
 //@   at "amt, err := spendCredit(nsCredits, credKey, &spender)" assert[C01] 0 <= rel.Index && rel.Index <= 4294967295 ==> mathint(spender.index) == rel.Index
 //@   at "if err := deleteRawUnspent(nsUnspent, unspentKey); err != nil {..." assert[C01] bhas(nsDebits, keyDebit(&rec.Hash, uint32(rel.Index), block))
 
@@ -945,7 +962,7 @@ func (s *UtxoStore) VerifWF() bool { return s != nil && s.bucketMeta != nil }
 // (C19: callers index the returned transaction's outputs with the requested index -- a transaction is looked up only
 // from a credit record of exactly the requested outpoint index; key codecs under contract, every other callee unknown)
 //@ func (*TxStore).ExistsTx
-//@   props C18 C19
+//@   props C18 C19 C17
 //@   nopanic off
 //@   modifies *
 //@   only existsUnspent readRawCreditKey FetchBucket
@@ -956,6 +973,9 @@ func (s *UtxoStore) VerifWF() bool { return s != nil && s.bucketMeta != nil }
 //@   loop#1 invariant[C18] err == nil
 //@   loop#1 invariant !found && cred.block != nil
 //@   at "if found {..." assert[C19] found ==> cred.outPoint.Index == out.Index
+// (C17: the chain database may already hold another chain than the wallet has processed) the transaction handed out
+// is the one the credit names: its id equals the credit's transaction hash
+//@   at "return msgtx, cred.block, nil" assert[C17] bytesEq(mHash[:], 0, cred.outPoint.Hash[:], 0, 32)
 //@ func (*SyncStore).GetAllWalletStatus
 //@   props C18
 //@   nopanic off
